@@ -23,6 +23,7 @@ import (
 
 	"reservoir/cache"
 	"reservoir/config"
+	"reservoir/metrics"
 	"reservoir/utils/bytesize"
 	"verifharness/emit"
 )
@@ -290,6 +291,45 @@ func stress(backend string, shards int, dir string, r *emit.Rand, dur time.Durat
 	return fs, reads
 }
 
+// metricDrift: a janitor cycle lands between the two counter updates of a store (byteSize first, then the
+// bytes metric). At the quiescent moment after the store the reported bytes metric must equal byteSize.
+func metricDrift(backend string, shards int, dir string) []failure {
+	var fs []failure
+	cfg := config.NewDefault()
+	ctx, cancel := context.WithCancel(context.Background())
+	defer cancel()
+	metrics.Global.Cache.BytesCached.Set(0)
+	metrics.Global.Cache.CacheEntries.Set(0)
+	c := newCache(backend, cfg, 1<<30, shards, ctx, dir)
+	defer c.Destroy()
+	for i := 0; i < 3; i++ {
+		k := cache.FromString(fmt.Sprintf("warm-%d", i))
+		if e, err := c.Cache(k, bytes.NewReader(mkBody(i, 1, 300)), time.Now().Add(time.Hour), meta{i, 1, 300}); err == nil && e.Data != nil {
+			e.Data.Close()
+		}
+	}
+	fired := false
+	cache.VerifSetYield(func(point string) {
+		if point == "counter.betweenHalves" && !fired {
+			fired = true
+			c.VerifCleanupCycle() // the janitor publishes the size it reads right now
+		}
+	})
+	k := cache.FromString("drift-key")
+	if e, err := c.Cache(k, bytes.NewReader(mkBody(9, 1, 500)), time.Now().Add(time.Hour), meta{9, 1, 500}); err == nil && e.Data != nil {
+		e.Data.Close()
+	}
+	cache.VerifSetYield(nil)
+	bs, metric := c.VerifByteSize(), metrics.Global.Cache.BytesCached.Get()
+	if fired && bs != metric {
+		fs = append(fs, failure{"metric-drift", backend, shards, fmt.Sprintf("quiescent after a store during which a cleanup cycle ran: cache size %d bytes, reported bytes metric %d", bs, metric)})
+	}
+	if !fired {
+		fs = append(fs, failure{"metric-drift", backend, shards, "yield point counter.betweenHalves was never reached (hook removed?)"})
+	}
+	return fs
+}
+
 type slowReader struct {
 	b    []byte
 	step int
@@ -334,6 +374,11 @@ func main() {
 				total++
 				dist["same-key-overlap/"+backend]++
 			}
+			mdir := filepath.Join(*flagOut, fmt.Sprintf("m-%s-%d", backend, shards))
+			failures = append(failures, metricDrift(backend, shards, mdir)...)
+			os.RemoveAll(mdir)
+			total++
+			dist["metric-drift/"+backend]++
 			dir := filepath.Join(*flagOut, fmt.Sprintf("s-%s-%d", backend, shards))
 			fs, n := stress(backend, shards, dir, r, dur)
 			failures = append(failures, fs...)
@@ -345,7 +390,7 @@ func main() {
 	}
 	out := map[string]any{
 		"harness": "cacheconc", "seed": *flagSeed, "tier": *flagTier, "total": total, "distinct": total, "distinct_nontrivial": total,
-		"rule":         "forced schedule 'store A of key k held in the middle of its source, 1 or 3 further stores of k start' + concurrent stress (3 writers with slow sources, 4 chunked slow readers, deletes / evictions / cleanup cycles on 4 keys, self-describing checksummed bodies) x backends {memory,file} x shards {1,3,64}; every body read must be one complete stored version of its key, delivered with that version's size and object metadata",
+		"rule":         "forced schedule 'store A of key k held in the middle of its source, 1 or 3 further stores of k start' + forced schedule 'a janitor cycle between the two counter updates of a store' (bytes metric = byteSize at the quiescent moment after) + concurrent stress (3 writers with slow sources, 4 chunked slow readers, deletes / evictions / cleanup cycles on 4 keys, self-describing checksummed bodies) x backends {memory,file} x shards {1,3,64}; every body read must be one complete stored version of its key, delivered with that version's size and object metadata",
 		"distribution": map[string]any{"scenario": dist, "bodies_read_under_stress": map[string]int{"all": reads}},
 		"samples":      []any{map[string]any{"scenario": "same-key-overlap", "backend": "file", "shards": 1}},
 		"files":        []string{}, "readable": []any{},
